@@ -1,4 +1,6 @@
 import SfVerif.Model.Proto
+import SfVerif.Model.Tramp
+import SfVerif.Gen.Glue
 /-! `sfdriver --width <32|64>`: reads protocol lines on stdin, answers from the Lean model. -/
 open SfVerif
 
@@ -199,6 +201,114 @@ def parseOp (w : Nat) (toks : List String) : Op :=
       if rest.isEmpty then pure (Op.serrt v t) else none)
   | _ => .bad
 
+/-! ### trampoline side: `tramp …` (acceptance logic) and `glue …` (mini-Wasm interpreter) lines -/
+
+def strOfName (n : List Nat) : String := String.ofList (n.map Char.ofNat)
+def nameOfStr (s : String) : List Nat := s.toList.map Char.toNat
+
+def vtCode (s : String) : Nat :=
+  if s == "i32" then 0 else if s == "i64" then 1 else if s == "f32" then 2 else if s == "f64" then 3 else 9
+
+def kindCode (s : String) : Nat :=
+  if s == "func" then 0 else if s == "memory" then 1 else if s == "global" then 2 else if s == "table" then 3 else 4
+
+def kindName (k : Nat) : String :=
+  if k = 0 then "func" else if k = 1 then "memory" else if k = 2 then "global" else if k = 3 then "table" else "other"
+
+def parseImp (s : String) : Option Tramp.Imp :=
+  match s.splitOn "|" with
+  | [m, n, k, ps, rs] =>
+    some { module := nameOfStr m, name := nameOfStr n, kind := kindCode k,
+           params := (ps.splitOn ",").filter (· != "") |>.map vtCode,
+           results := (rs.splitOn ",").filter (· != "") |>.map vtCode }
+  | _ => none
+
+def rejectName (c : Nat) : String :=
+  if c = 0 then "multi-memory" else if c = 1 then "unexpected-import" else if c = 2 then "unsupported-module"
+  else if c = 3 then "bad-signature" else if c = 4 then "not-a-function" else "other-error"
+
+def runTramp (toks : List String) : String :=
+  match toks with
+  | [memsTok, impsTok] =>
+    (match (memsTok.drop 5).toString.toNat?, (impsTok.drop 8).toString with
+     | some mems, impsStr =>
+       let imps := if impsStr == "-" then some [] else (impsStr.splitOn ";").mapM parseImp
+       (match imps with
+        | none => "bad-op"
+        | some imps =>
+          match Tramp.apply { ownMems := mems, imports := imps } with
+          | .noop => "noop"
+          | .reject c => s!"reject {rejectName c}"
+          | .rewrite s =>
+            let names := s.imports.map (fun i => s!"{strOfName i.module}|{strOfName i.name}|{kindName i.kind}")
+            s!"rewrite own_mems={s.ownMems} imports={";".intercalate (sortStrings names)}")
+     | _, _ => "bad-op")
+  | _ => "bad-op"
+
+def memOfSparse (chunks : List (Nat × Bytes)) : Wasm.Mem :=
+  { size := 65536,
+    byte := fun a =>
+      match chunks.find? (fun c => c.1 ≤ a ∧ a < c.1 + c.2.size) with
+      | some (base, bs) => bs[a - base]!
+      | none => 0 }
+
+def parseSparse (s : String) : Option (List (Nat × Bytes)) :=
+  if s == "-" then some [] else
+  (s.splitOn ",").mapM (fun c => match c.splitOn ":" with
+    | [a, h] => do let a ← a.toNat?; let b ← parseHexBytes h; pure (a, b)
+    | _ => none)
+
+def memHash (m : Wasm.Mem) : Nat :=
+  ((List.range 65536).foldl (fun (h : UInt64) a => (h ^^^ (m.byte a).toUInt64) * 0x100000001b3) 0xcbf29ce484222325).toNat
+
+def vOfType (t v : Nat) : Wasm.V := if t = 1 then .i64 v else if t = 3 then .f64 v else .i32 (v % 2 ^ 32)
+def vNat : Wasm.V → Nat
+  | .i32 x => x | .i64 x => x | .f64 x => x
+
+def logProviderName : List Nat := nameOfStr "_shopify_function_log_new_utf8_str"
+
+def runGlue (toks : List String) : String :=
+  match toks with
+  | [mi, ki, argsT, hT, planT, gT, pT] =>
+    let r : Option String := do
+      let mi ← mi.toNat?
+      let ki ← ki.toNat?
+      let m ← SfVerif.Gen.glueModules[mi]?
+      let f ← (m.apiExports.find? (fun e => e.1 == ki)).map (·.2)
+      let fn ← m.funcs[f]?
+      let argStr := (argsT.drop 5).toString
+      let args ← (if argStr == "" then some [] else (argStr.splitOn ",").mapM String.toNat?)
+      let hStr := (hT.drop 2).toString
+      let resp ← (if hStr == "-" then some [] else
+        (hStr.splitOn ",").mapM (fun c => match c.splitOn ":" with
+          | [n, v] => v.toNat?.map (fun v => (nameOfStr n, v))
+          | _ => none))
+      let planStr := (planT.drop 5).toString
+      let plan ← (if planStr == "-" then some [] else (planStr.splitOn ",").mapM String.toNat?)
+      let g ← parseSparse (gT.drop 2).toString
+      let p ← parseSparse (pT.drop 2).toString
+      let host : Wasm.Host := fun name _ prov =>
+        let v := ((resp.find? (fun r => r.1 == name)).map (·.2)).getD 0
+        let rts := ((m.funcs.find? (fun fn => match fn.imp with | some (_, n) => n == name | none => false)).map (·.results)).getD []
+        let prov' : Wasm.Mem :=
+          if name == logProviderName && !plan.isEmpty then
+            let words : List UInt8 := plan.flatMap (fun w => [UInt8.ofNat (w % 256), UInt8.ofNat (w / 256 % 256), UInt8.ofNat (w / 65536 % 256), UInt8.ofNat (w / 16777216 % 256)])
+            let base := v % 2 ^ 32
+            { prov with byte := fun a => if base ≤ a ∧ a < base + 20 then words[a - base]! else prov.byte a }
+          else prov
+        some (rts.map (fun t => vOfType t v), prov')
+      let stack := ((fn.params.zip args).map (fun (t, v) => vOfType t v)).reverse
+      let st : Wasm.St := { prov := memOfSparse p, guest := memOfSparse g, stack := stack, locals := [], calls := [] }
+      pure (match Wasm.exec host m.funcs 16 (.call f) st with
+        | .ok s' =>
+          let ret := match s'.stack with | v :: _ => toString (vNat v) | [] => "-"
+          let calls := s'.calls.reverse.map (fun (n, as) => s!"{strOfName n}({",".intercalate (as.map (fun a => toString (vNat a)))})")
+          s!"ret={ret} g={hexNat (memHash s'.guest) 16} p={hexNat (memHash s'.prov) 16} calls={";".intercalate calls}"
+        | .trap => "trap"
+        | .fuel => "out-of-fuel")
+    r.getD "bad-op"
+  | _ => "bad-op"
+
 partial def loop (w : Nat) (h : IO.FS.Stream) (out : IO.FS.Stream) (s : Sys) : IO Unit := do
   let line ← h.getLine
   if line.isEmpty then return ()
@@ -212,6 +322,12 @@ partial def loop (w : Nat) (h : IO.FS.Stream) (out : IO.FS.Stream) (s : Sys) : I
     | none => out.putStrLn "bad-op"; loop w h out s
   else if l.isEmpty || l.startsWith "#" then
     out.putStrLn l
+    loop w h out s
+  else if l.startsWith "tramp " then
+    out.putStrLn (runTramp ((l.drop 6).toString.splitOn " "))
+    loop w h out s
+  else if l.startsWith "glue " then
+    out.putStrLn (runGlue ((l.drop 5).toString.splitOn " "))
     loop w h out s
   else
     let toks := (l.splitOn " ").filter (fun t => !t.isEmpty)
